@@ -317,6 +317,36 @@ def install(eng, w):
         return VList([n for n in eng.iterate(names) if n.endswith(".mo")])
 
     ident = stub(lambda eng, p_, *a: p_ if isinstance(p_, PathStr) else PathStr(str(p_)))
+    def world_files():
+        return [(fo + "/" + fi) for fo, files in w.folders.items() for fi in files]
+
+    def glob_match(pattern, recursive):
+        """Python's glob on the world's files: a pattern part is matched by fnmatch, `*`, `?`, `[..]` and `**` never match a name that
+        starts with a dot, and metacharacters in the folder part of the pattern are pattern, not text"""
+        import fnmatch as _fn
+        pparts = pattern.split("/")
+
+        def part_ok(pp, name):
+            if name.startswith(".") and not pp.startswith("."):
+                return False
+            return _fn.fnmatchcase(name, pp)
+
+        def rec(pi, parts, ni):
+            if pi == len(pparts):
+                return ni == len(parts)
+            pp = pparts[pi]
+            if pp == "**" and recursive:
+                if rec(pi + 1, parts, ni):
+                    return True
+                return ni < len(parts) - 0 and ni < len(parts) and not parts[ni].startswith(".") and rec(pi, parts, ni + 1)
+            return ni < len(parts) and part_ok(pp, parts[ni]) and rec(pi + 1, parts, ni + 1)
+        return [f_ for f_ in world_files() if rec(0, f_.split("/"), 0)]
+
+    def iglob(eng, pattern, recursive=False, **kw):
+        pat = pattern.label if isinstance(pattern, PathStr) else str(pattern)
+        w.walked.extend(sorted({f_.rsplit("/", 1)[0] for f_ in glob_match(pat, recursive)}))
+        return VList([PathStr(f_) for f_ in glob_match(pat, recursive)])
+    eng.ext_modules["glob"] = ModuleStub("glob", {"iglob": stub(iglob), "glob": stub(iglob), "escape": stub(lambda eng, p_: PathStr("".join("[" + ch + "]" if ch in "*?[" else ch for ch in (p_.label if isinstance(p_, PathStr) else str(p_)))))})
     os_path = ModuleStub("os.path", {"getmtime": stub(getmtime), "join": stub(join),
                                      # every path of the world is written absolute, normalised and free of links
                                      "getsize": stub(getsize), "abspath": ident, "realpath": ident, "normpath": ident, "normcase": ident, "expanduser": ident,
@@ -417,6 +447,8 @@ FOLDER_SHAPES = [
     ([], {"libA": ["a.mo"], "libB": ["c.mo"]}),
     (["m.mo"], {"MODEL_libs": ["x.mo"]}),          # a library folder BESIDE the model folder whose name continues the model folder's name
     (["m.mo"], {"MODEL/sub": ["s.mo"]}),           # a library folder INSIDE the model folder
+    (["m.mo", ".base.mo"], {"lib[v2]": ["x.mo"]}),                       # a source whose name starts with a dot; a folder name with glob metacharacters
+    (["m.mo"], {}, {"MODEL/.shared": ["s.mo"], "MODEL/pkg/deep": ["d.mo"]}),   # sub folders of the model folder (one starting with a dot)
 ]
 
 
@@ -430,10 +462,12 @@ def make_world(eng, with_db=True, pickle_outcomes=(None,), var_shapes=None, mini
     w.external_fails = None
     shape = FOLDER_SHAPES[0] if minimal_env else FOLDER_SHAPES[eng.choice(len(FOLDER_SHAPES))]
     w.minimal_env = minimal_env
-    eng.input("folder_shape", {"model_folder": shape[0], "libraries": shape[1]})
+    eng.input("folder_shape", {"model_folder": shape[0], "libraries": shape[1], "sub_folders": shape[2] if len(shape) > 2 else {}})
     w.folders = {"MODEL": shape[0]}
     w.folders.update(shape[1])
     w.lib_folders = list(shape[1].keys())
+    if len(shape) > 2:
+        w.folders.update(shape[2])        # plain sub folders: walked with their parent, compiled with it
     w.mtimes = {}
     for folder, files in w.folders.items():
         for f in files:
